@@ -18,6 +18,15 @@ fn main() {
     runner::quiet_panics();
     let verif_dir = std::env::var("VERIF_DIR").unwrap_or_else(|_| "/verif".to_string());
     let known = runner::load_known(&verif_dir);
+    if args[1] == "c15-worker" && args.len() >= 6 {
+        let seed: u64 = args[2].parse().unwrap_or(1);
+        let stream: u64 = args[3].parse().unwrap_or(0);
+        let cases: u64 = args[4].parse().unwrap_or(1);
+        std::process::exit(props::cabi_props::worker_main(&verif_dir, seed, stream, cases, &args[5]));
+    }
+    if args[1] == "c15-one" && args.len() >= 3 {
+        std::process::exit(props::cabi_props::one_main(&verif_dir, &args[2]));
+    }
     if args[1] == "replay" {
         if args.len() < 3 {
             usage();
